@@ -32,7 +32,7 @@ def coefficient_maps(ctx):
         if attr not in found:
             raise AnalysisError("FunctionSpace.__init__ no longer builds %s" % attr)
         st = found[attr]
-        call = st.value
+        call = roles.inline(st.value, defs)  # a local naming the coo_matrix (or a part of the triplet) is read through
         while isinstance(call, ast.Call) and isinstance(call.func, ast.Attribute) and call.func.attr in ("tocsr", "tocsc"):
             call = call.func.value
         if not (isinstance(call, ast.Call) and unparse(call.func).endswith("coo_matrix") and isinstance(call.args[0], ast.Tuple)):
